@@ -325,6 +325,10 @@ func genTbls(rng *hx.Rng, tier string, w *hx.Writer, mode string) error {
 			if it%7 == 0 {
 				n = 257 + rng.Intn(10) // indices that need both bytes of the prefix
 			}
+		case 2, 3:
+			if it%3 == 0 {
+				n = 65 + rng.Intn(8) // member indices beyond a machine word's bits
+			}
 		}
 		t := 2 + rng.Intn(n-1)
 		if n > 20 {
@@ -335,6 +339,9 @@ func genTbls(rng *hx.Rng, tier string, w *hx.Writer, mode string) error {
 		below := (mode == "C03" && rng.Chance(75)) || (mode == "C02" && rng.Chance(15))
 		if below {
 			k = rng.Intn(t)
+			if n > 64 {
+				k = t - 1
+			}
 		} else {
 			k = t + rng.Intn(n-t+1)
 			if n > 20 {
@@ -342,10 +349,14 @@ func genTbls(rng *hx.Rng, tier string, w *hx.Writer, mode string) error {
 			}
 		}
 		perm := rng.Perm(n)
-		if n > 256 && k > 0 {
+		hi := 256
+		if n <= 256 {
+			hi = 64
+		}
+		if n > 64 && k > 0 {
 			// make sure a high index is among the valid ones
 			for j, v := range perm {
-				if v >= 256 {
+				if v >= hi {
 					perm[0], perm[j] = perm[j], perm[0]
 					break
 				}
@@ -356,6 +367,20 @@ func genTbls(rng *hx.Rng, tier string, w *hx.Writer, mode string) error {
 			i := perm[j]
 			d := s.shareLog(i, s.coeffs, s.hm)
 			ents = append(ents, sigEnt{"valid", withIndex(i, g1Bytes(d)), i, d})
+		}
+		if n > 64 && k > 0 {
+			// the high-index member's share once more under other encodings: still one member
+			src := ents[0]
+			ins := func(e sigEnt) {
+				pos := 1 + rng.Intn(len(ents))
+				ents = append(ents, sigEnt{})
+				copy(ents[pos+1:], ents[pos:])
+				ents[pos] = e
+			}
+			ins(sigEnt{"trail", append(append([]byte{}, src.bytes...), rng.Bytes(1)...), src.idx, src.dlog})
+			if nb := addP(src.bytes, 2); nb != nil {
+				ins(sigEnt{"unred", nb, src.idx, src.dlog})
+			}
 		}
 		nj := rng.Intn(5)
 		if below {
